@@ -1,6 +1,7 @@
 package run
 
 import (
+	"fmt"
 	"testing"
 	"testing/synctest"
 
@@ -9,8 +10,19 @@ import (
 )
 
 // InBubble executes a run inside a synctest bubble (fake clock, quiescence detection).
-func InBubble(t *testing.T, spec *Spec, tp *tape.Tape) *core.RunResult {
-	var res *core.RunResult
+// If goroutines of the code under test are still blocked when the run ends, synctest
+// panics in this goroutine; that is recorded as a probe, not as a verdict.
+func InBubble(t *testing.T, spec *Spec, tp *tape.Tape) (res *core.RunResult) {
+	defer func() {
+		if r := recover(); r != nil {
+			if res == nil {
+				res = core.NewResult()
+				res.Discarded = fmt.Sprint("bubble: ", r)
+				return
+			}
+			res.Probes["goroutines-left-blocked-at-end"]++
+		}
+	}()
 	synctest.Test(t, func(t *testing.T) {
 		res = spec.Run(tp)
 	})
